@@ -283,6 +283,9 @@ class Run:
 
     def add_traces(self, n, res, what):
         self.traces += n
+        # TLC explores one state per matched trace record (plus branching where fields are unlogged)
+        self.states += res.get("distinct", 0)
+        self.transitions += res.get("states", 0)
         self.stages.append({"stage": "tlc-trace", "what": what, "cfg": res["cfg"], "traces": n,
                             "events_matched": res.get("matched"), "wall_s": round(res["wall_s"], 1)})
         self.checker_cmds.append("tlc -config spec/%s (TRACE=<recorded ndjson>)" % res["cfg"])
